@@ -12,7 +12,7 @@ THEOREMS = ["C20_user_wins", "C20_user_value_survives_loads", "C20_dependent_def
             "C20_unknown_rejected", "C20_reserved_name_rejected", "C20_validate_exact", "C20_no_leak",
             "C20_defaults_for_own_D", "C20_caller_dict_untouched", "real_files_dependencies_ok",
             "real_files_depends_on_D_exact", "C20_real_files", "C20_real_files_unknown_rejected"]
-TRANSLATORS = ["options"]
+TRANSLATORS = ["options", "option_reads"]
 LEVEL = "proof"
 RULE = ("T1: random op sequences (Init/Load/Validate over 1-3 Options objects, with and without passing D, 1-3 synthetic ini "
         "files whose defaults read D and other keys in any order, user dicts with known/unknown/reserved names) on the real "
@@ -233,9 +233,43 @@ def _witness(ctx, broken):
         broken.append(("regression-witness:reserved-name", "the reserved option name is no longer rejected (concrete input found)"))
 
 
+# every place where the package STORES into an options object (translate/option_reads.py, ast census of the whole package).  The run may
+# adjust exactly these options at exactly these sites (all in the constructor / the initialisation of optimize(); what each does to a
+# user-supplied value is checked dynamically by the T2 monitor).  A store anywhere else is a broken tie.
+WRITE_SITES = {
+    ("stobads", "BADS.__init__"), ("specify_target_noise", "BADS._init_optim_state_"), ("uncertainty_handling", "BADS._init_optim_state_"),
+    ("fun_eval_start", "BADS._init_mesh_"), ("tol_stall_iters", "BADS._init_optimization_"), ("n_train_max", "BADS._init_optimization_"),
+    ("n_train_min", "BADS._init_optimization_"), ("mesh_overflow_warning", "BADS._init_optimization_"),
+    ("min_failed_poll_steps", "BADS._init_optimization_"), ("mesh_noise_multiplier", "BADS._init_optimization_"),
+    ("noise_final_samples", "BADS._init_optimization_"), ("max_fun_evals", "BADS._init_optimization_"),
+    ("noise_size", "BADS._init_optimization_"), ("stobads", "BADS._init_optimization_"),
+}
+
+
+def _write_sites(ctx, broken):
+    from translate import option_reads as OR
+    cen = OR.load_emitted()
+    got = {(w["option"], w["function"]) for w in cen["writes"]}
+    new, gone = sorted(got - WRITE_SITES), sorted(WRITE_SITES - got)
+    ok = ctx.oblige("static:option-write-sites", "translator", not new and not gone,
+                    f"{len(got)} store sites into option objects in the package, all among the {len(WRITE_SITES)} known ones" if not new and not gone
+                    else f"store sites not in the model: {new}; modelled sites that no longer exist: {gone}")
+    if not ok:
+        broken.append(("static:option-write-sites", f"the package stores into an options object at {new or gone} — outside the set of "
+                       "adjustments the model of C20 knows (constructor / initialisation only); a run could overwrite a user's setting there"))
+    ctx.coverage["option_store_sites"] = len(got)
+    return 0
+
+
 def tie(ctx, broken):
     import traceback
     done = 0
+    try:
+        _write_sites(ctx, broken)
+    except Exception:
+        tb = traceback.format_exc()
+        ctx.oblige("static:option-write-sites", "translator", False, tb[-600:])
+        broken.append(("static:option-write-sites", "census of option stores unavailable: " + tb[-300:]))
     for name, part in (("T1", lambda: _t1(ctx, broken, 400 if ctx.quick else 5000)),
                        ("witness", lambda: _witness(ctx, broken) or 0),
                        ("T2", lambda: _t2(ctx, broken))):
